@@ -43,12 +43,15 @@ func (t *LocalTransport) Dispatch(update *Update) error {
 	}
 
 	AssignUUID(update)
+
+	// The list of subscribers isn't safe for concurrent use: matching updates its internal caches
+	t.Lock()
+	defer t.Unlock()
+
 	for _, s := range t.subscribers.MatchAny(update) {
 		s.Dispatch(update, false)
 	}
-	t.Lock()
 	t.lastEventID = update.ID
-	t.Unlock()
 
 	return nil
 }
